@@ -400,6 +400,23 @@ class Builtins:
             raise Unsupported("reversed of abstract sequence")
         return SList(list(reversed(c)))
 
+    def f_filter(self, pos, kw, fr):
+        pred, seq = pos
+        c = self.it.iter_concrete(seq)
+        if c is not None:
+            out = []
+            for x in c:
+                r = self.it.call_value(pred, [x], {}, fr) if pred is not None else x
+                if self.cx.branch(truth(self.cx, r), "filter"):
+                    out.append(x)
+            return SList(out)
+        if isinstance(seq, SList):
+            # over-approximation: some sub-sequence of `seq` (the predicate is not evaluated)
+            n = self.cx.int("n_filtered", lo=0)
+            self.cx.assume(to_term_int(n) <= to_term_int(list_len(seq)))
+            return SList(None, length=n, elem=seq.elem, fresh=True, label="filtered")
+        raise Unsupported("filter over " + type(seq).__name__)
+
     def f_sum(self, pos, kw, fr):
         c = self.it.iter_concrete(pos[0])
         if c is not None:
@@ -514,13 +531,13 @@ class Builtins:
                 else:
                     fr.locals.pop(n.id, None)
 
-    def abstract_map(self, e, fr, src: SList, g):
+    def abstract_map(self, e, fr, src: SList, g, sum_filter: bool = False):
         """[elt for x in src] over an abstract list: the element expression is executed ONCE for a generic index;
         symbols created meanwhile become functions of the index and the assumptions made become universally
         quantified.  Any symbolic branch inside the element expression is Unsupported (except 'callee may raise',
         which makes the whole comprehension raise non-deterministically)."""
         cx = self.cx
-        if g.ifs:
+        if g.ifs and not sum_filter:
             raise Unsupported("filtered comprehension over an abstract sequence")
         n = to_term_int(list_len(src))
         jname = cx._name("gj")
@@ -538,6 +555,13 @@ class Builtins:
         try:
             self.it.assign(g.target, src.elem(SInt(j)) if src.elem else cx.opaque("elem"), fr)
             val = self.it.ev(e.elt, fr)
+            if g.ifs:
+                # only under sum(): an element filtered out contributes 0
+                conds = [truth(cx, self.it.ev(c, fr)) for c in g.ifs]
+                ct = z3.And(*[c if not isinstance(c, bool) else z3.BoolVal(c) for c in conds])
+                if not isinstance(val, (int, SInt)):
+                    raise Unsupported("filtered sum of non-int elements")
+                val = SInt(z3.If(ct, to_term_int(val), 0))
         finally:
             cx.ghost["generic"] -= 1
         if cx.pos != mark_pos:
@@ -627,7 +651,7 @@ class Builtins:
             lst = self.comprehension(comp, fr, "list")
             extra = [self.it.ev(r, fr) for r in rest]
             return self.call(fname, None, [lst] + extra, {}, fr)
-        lst = self.abstract_map(comp, fr, src, g)
+        lst = self.abstract_map(comp, fr, src, g, sum_filter=(fname == "sum"))
         extra = [self.it.ev(r, fr) for r in rest]
         return self.call(fname, None, [lst] + extra, {}, fr)
 
@@ -638,7 +662,12 @@ class Builtins:
         src = self.it.ev(g.iter, fr)
         conc = self.it.iter_concrete(src)
         if conc is None:
-            return SDict(keys=None, fresh=True, label="dictcomp")
+            d = SDict(z3.Array(self.cx._name("dc_keys"), z3.IntSort(), z3.BoolSort()), None, fresh=True, label="dictcomp")
+            d.ghost["ident"] = self.cx.const("dictcomp_content", z3.IntSort())
+            d.ghost["nonempty"] = self.cx.bool("dictcomp_nonempty").term
+            d.ghost["comp_src"] = src
+            self.cx.assume_note("comprehension over an abstract pair sequence: the element expression is not executed (assumed not to raise)")
+            return d
         d = {}
         saved = dict(fr.locals)
         for v in conc:
@@ -890,6 +919,8 @@ class Builtins:
                 return SList(list(d.concrete.keys()))
             if f"@{short}" in d.ghost:
                 return d.ghost[f"@{short}"]
+            if "view" in d.ghost:
+                return d.ghost["view"](short)
             if "ident" in d.ghost:
                 o = SOpaque("dictview", d.ghost["ident"])
                 return o
